@@ -125,3 +125,51 @@ package roaring
 //@   requires c == nil || wfT(c)
 //@   ensures result <==> mem(c, v)
 //@   modifies nothing
+
+// ---- counting --------------------------------------------------------------
+// Normal-form counters over the concrete encodings (DESIGN.md 4.1).  r is the
+// storage row of the slice, [lo,hi) the absolute index range.
+
+//@ spec ovl(st int, la int, s int, e int) = max(0, min(la + 1, e) - max(st, s))
+//@ rec cntRuns(r seq[interval16], lo int, hi int, s int, e int) int = hi <= lo ? 0 : cntRuns(r, lo, hi - 1, s, e) + ovl(r[hi-1].start, r[hi-1].last, s, e)
+//@ spec sortedRunsSeq(r seq[interval16], lo int, hi int) = (forall i :: lo <= i && i < hi ==> r[i].start <= r[i].last) && (forall i, j :: lo <= i && i < j && j < hi ==> r[i].last < r[j].start)
+//@ spec cntRunsOf(r []interval16, s int, e int) = cntRuns(seq(r), r.off, r.off + len(r), s, e)
+
+//@ lemma cntRunsTail(r seq[interval16], lo int, i int, hi int, s int, e int) props C01
+//@   requires lo <= i && i <= hi
+//@   requires forall j :: i <= j && j < hi ==> e <= r[j].start
+//@   ensures cntRuns(r, lo, hi, s, e) == cntRuns(r, lo, i, s, e)
+//@   induction hi
+//@   pattern cntRuns(r, lo, hi, s, e), cntRuns(r, lo, i, s, e)
+//@ lemma cntRunsHead(r seq[interval16], lo int, i int, s int, e int) props C01
+//@   requires lo <= i
+//@   requires forall j :: lo <= j && j < i ==> r[j].last < s
+//@   ensures cntRuns(r, lo, i, s, e) == 0
+//@   induction i
+//@   pattern cntRuns(r, lo, i, s, e)
+//@ lemma cntRunsNonNeg(r seq[interval16], lo int, hi int, s int, e int) props C01
+//@   requires lo <= hi
+//@   ensures cntRuns(r, lo, hi, s, e) >= 0
+//@   induction hi
+//@   pattern cntRuns(r, lo, hi, s, e)
+
+//@ lemma cntRunsBound(r seq[interval16], lo int, hi int, s int, e int) props C01
+//@   requires lo < hi && s <= e && sortedRunsSeq(r, lo, hi)
+//@   ensures cntRuns(r, lo, hi, s, e) <= max(0, min(r[hi-1].last + 1, e) - s)
+//@   induction hi
+//@   pattern cntRuns(r, lo, hi, s, e)
+
+//@ contract (interval16).runlen props C01
+//@   requires iv.start <= iv.last
+//@   ensures result == iv.last - iv.start + 1
+//@   modifies nothing
+
+//@ contract (*Container).runCountRange props C01
+//@   requires wfRuns(c) && 0 <= start && start <= end && end <= 65536
+//@   ensures n == cntRunsOf(c.$runs, start, end)
+//@   modifies nothing
+//@   uses cntRunsTail, cntRunsHead, cntRunsNonNeg, cntRunsBound
+//@   loop 1 invariant 0 <= $i + 1 && $i + 1 <= len(runs) && runs == c.$runs
+//@   loop 1 invariant n == cntRuns(seq(runs), runs.off, runs.off + $i + 1, start, end)
+//@   loop 1 invariant 0 <= n && n <= 65536
+//@   loop 1 decreases len(runs) - $i
